@@ -28,7 +28,7 @@ func init() {
 		},
 		Batch: func(t string) int { return 30 },
 		Floors: []string{"merges_checked", "inputs_0", "inputs_1", "inputs_2", "inputs_many", "consume_rows", "consume_row_readers", "consume_copy_rows", "consume_write_rowgroup", "nullable_key_merges", "null_keys_in_inputs", "desc_key_merges", "two_column_keys",
-			"dedup_merges", "overlap_disjoint", "overlap_touching", "overlap_nested", "overlap_identical", "large_inputs_refinement", "inputs_without_page_index", "buffer_inputs", "duplicate_keys_across_inputs"},
+			"dedup_merges", "overlap_disjoint", "overlap_touching", "overlap_nested", "overlap_identical", "large_inputs_refinement", "inputs_without_page_index", "buffer_inputs", "duplicate_keys_across_inputs", "row_readers_recycling_sources"},
 		Rule: "case = (k in {0,1,2,3,5,8,17} inputs, each a file row group (small pages, with or without page index) or a sorted buffer, sorted by 1-2 key columns with every direction x null placement; key ranges disjoint / touching / nested / identical, duplicates within and across inputs; " +
 			"input sizes around 24, 192, 1024 and 5000 rows so that range refinement and run mode engage; consumed through MergeRowGroups().Rows() with batch sizes {1,2,3,24,64,1000}, MergeRowReaders, CopyRows and Writer.WriteRowGroup then read back; optional duplicate dropping). " +
 			"Every row carries (source, sequence): the oracle checks sortedness with an independent comparator, multiset equality with the union of inputs, per-source order, and for dedup one surviving input row per key. Distinct = descriptor hash",
@@ -283,10 +283,20 @@ func runC09(c *Ctx) {
 			} else {
 				readers := make([]parquet.RowReader, k)
 				var closers []io.Closer
+				// half of the time every source hands out rows whose byte-array values live in memory that it
+				// overwrites at its next ReadRows call (which the RowReader contract allows), in chunks of its own size
+				recycle := r.Bool()
+				chunk := gen.Pick(r, []int{5, 24, 64})
 				for i, rg := range rgs {
 					rr := rg.Rows()
 					readers[i] = rr
+					if recycle {
+						readers[i] = &recyclingReader{inner: rr, chunk: chunk}
+					}
 					closers = append(closers, rr)
+				}
+				if recycle {
+					c.Obs("row_readers_recycling_sources", 1)
 				}
 				m := parquet.MergeRowReaders(readers, schema.Comparator(scs...))
 				prows, err = readRowsAll(m, batch)
@@ -406,4 +416,52 @@ func runC09(c *Ctx) {
 	if len(all) == 0 {
 		c.Trivial()
 	}
+}
+
+// recyclingReader is a RowReader whose rows are valid until its next ReadRows call only: the bytes of
+// byte-array values live in an arena that is overwritten at the start of every call.
+type recyclingReader struct {
+	inner parquet.RowReader
+	chunk int
+	arena []byte
+	tmp   []parquet.Row
+}
+
+func (rr *recyclingReader) ReadRows(rows []parquet.Row) (int, error) {
+	for i := range rr.arena {
+		rr.arena[i] = '#'
+	}
+	if len(rr.tmp) < rr.chunk {
+		rr.tmp = make([]parquet.Row, rr.chunk)
+	}
+	n, err := rr.inner.ReadRows(rr.tmp[:min(len(rows), rr.chunk)])
+	size := 0
+	for _, row := range rr.tmp[:n] {
+		for _, v := range row {
+			if !v.IsNull() && (v.Kind() == parquet.ByteArray || v.Kind() == parquet.FixedLenByteArray) {
+				size += len(v.ByteArray())
+			}
+		}
+	}
+	if cap(rr.arena) < size {
+		rr.arena = make([]byte, 0, 2*size)
+	}
+	rr.arena = rr.arena[:0]
+	for i, row := range rr.tmp[:n] {
+		rows[i] = rows[i][:0]
+		for _, v := range row {
+			if !v.IsNull() && (v.Kind() == parquet.ByteArray || v.Kind() == parquet.FixedLenByteArray) {
+				off := len(rr.arena)
+				rr.arena = append(rr.arena, v.ByteArray()...)
+				b := rr.arena[off:len(rr.arena):len(rr.arena)]
+				w := parquet.ByteArrayValue(b)
+				if v.Kind() == parquet.FixedLenByteArray {
+					w = parquet.FixedLenByteArrayValue(b)
+				}
+				v = w.Level(v.RepetitionLevel(), v.DefinitionLevel(), v.Column())
+			}
+			rows[i] = append(rows[i], v)
+		}
+	}
+	return n, err
 }
